@@ -329,11 +329,13 @@ where
     fn on_event(&self, event: &Event, ctx: Context<C>) {
         let mut buf = Vec::with_capacity(256);
 
-        // Record span fields
+        // Record span fields: those of the spans this *event* happened in,
+        // which is the thread's current span only when the event does not
+        // name its parent (`parent: &span`, `parent: None`) itself.
         for span in ctx
-            .lookup_current()
+            .event_scope(event)
             .into_iter()
-            .flat_map(|span| span.scope().from_root())
+            .flat_map(|scope| scope.from_root())
         {
             let exts = span.extensions();
             let fields = exts.get::<SpanFields>().expect("missing fields");
